@@ -1368,6 +1368,129 @@ def op_x_std(req):
     return {"fails": fails, "kinds": seen_kinds}
 
 
+def _digest(obj):
+    import hashlib
+    return hashlib.sha1(json.dumps(obj, sort_keys=True, default=repr).encode("utf-8", "surrogatepass")).hexdigest()[:16]
+
+
+def _table_digest(opc):
+    d = {}
+    for nm in ("opmap", "opname", "oppush", "oppop", "HAVE_ARGUMENT", "EXTENDED_ARG", "EXTENDED_ARG_SHIFT", "version_tuple",
+               "hascompare", "hascondition", "hasconst", "hasfree", "hasjabs", "hasjrel", "haslocal", "hasname", "hasnargs",
+               "hasstore", "hasvargs", "nofollow", "cmp_op"):
+        if hasattr(opc, nm):
+            v = getattr(opc, nm)
+            if isinstance(v, dict):
+                v = sorted(v.items())
+            elif isinstance(v, (set, frozenset)):
+                v = sorted(v)
+            elif isinstance(v, tuple):
+                v = list(v)
+            d[nm] = _digest(v)
+    for nm in ("findlabels", "findlinestarts"):
+        f = getattr(opc, nm, None)
+        d[nm] = getattr(f, "__name__", repr(f))
+    return d
+
+
+_ADDR = None
+
+
+def _norm_addr(t):
+    global _ADDR
+    if _ADDR is None:
+        import re
+        _ADDR = re.compile(r"0x[0-9a-f]{6,}")
+    return _ADDR.sub("0xX", t)
+
+
+def do_hist_op(op):
+    """One public operation of C18; returns a JSON-able, deterministic description of its result
+    (an exception is a result too)."""
+    x = xd()
+    k = op["k"]
+    corpus = os.path.join(os.environ.get("VERIF_REPO", "/repo"), "test")
+    try:
+        if k == "load":
+            t = x.load.load_module(os.path.join(corpus, op["f"]))
+            py2 = tuple(t[0]) < (3, 0)
+            return {"header": [list(t[0]), t[1], t[2], bool(t[4]), t[5], t[6]], "tree": _digest(xcanon(t[3], py2))}
+        if k == "dis":
+            import io
+            out = io.StringIO()
+            x.disasm.disassemble_file(os.path.join(corpus, op["f"]), out, op["fmt"])
+            txt = _norm_addr(out.getvalue())
+            return {"text": _digest(txt), "lines": txt.count("\n")}
+        if k == "opc":
+            vt = tuple(int(p) for p in op["v"].split("."))
+            return _table_digest(x.disasm.get_opcode(vt, op.get("pypy", False)))
+        if k == "std":
+            vt = tuple(int(p) for p in op["v"].split("."))
+            api = x.std.make_std_api(vt, None)
+            q = op["q"]
+            if q[0] == "opname":
+                return {"r": api.opname[q[1]]}
+            if q[0] == "stack_effect":
+                return {"r": api.stack_effect(q[1], q[2])}
+            if q[0] == "hasconst":
+                return {"r": q[1] in api.hasconst, "n": q[1] in api.hasname, "ha": api.HAVE_ARGUMENT, "ea": api.EXTENDED_ARG}
+            return {"r": None}
+        if k == "bc":
+            t = x.load.load_module(os.path.join(corpus, op["f"]))
+            opc = x.disasm.get_opcode(t[0], t[4])
+            ins = [[i.offset, i.opname, i.arg, _norm_addr(repr(i.argval)), i.is_jump_target, i.starts_line]
+                   for i in x.bytecode.Bytecode(t[3], opc)]
+            return {"n": len(ins), "digest": _digest(ins)}
+        if k == "mdumps":
+            b = x.marsh.dumps(build_shared(op["value"]))
+            # element order inside sets depends on addresses (None, Ellipsis hash by id): compare the value
+            # the bytes stand for, not the bytes
+            return {"len": len(b), "value": canon(marshal.loads(b))}
+        if k == "mloads":
+            v = build_shared(op["value"])
+            return {"back": canon(x.marsh.loads(marshal.dumps(v, op.get("ver", 1))))}
+        if k == "mloads_code":
+            co = compile(op["src"], "<h>", "exec", 0, True)
+            back = x.marsh.loads(marshal.dumps(co, op.get("ver", 2)))
+            return {"type": type(back).__name__, "name": getattr(back, "co_name", None),
+                    "code": hx(back.co_code) if hasattr(back, "co_code") else None}
+        if k == "tables":
+            seen = {}
+            for key, m in x.op_imports.op_imports.items():
+                seen[m.__name__] = m
+            return dict((n, _digest(_table_digest(m))) for n, m in sorted(seen.items()))
+        return {"unknown-op": k}
+    except BaseException as e:      # noqa
+        return {"raised": type(e).__name__, "msg": _norm_addr(str(e))[:200]}
+
+
+def op_x_do(req):
+    return {"result": do_hist_op(req["do"])}
+
+
+def op_x_fresh(req):
+    """The operation done as the FIRST thing in a process that has only imported xdis: this worker
+    (which never runs an operation itself) forks, and the child runs it and reports back."""
+    xd()
+    r, w = os.pipe()
+    pid = os.fork()
+    if pid == 0:
+        try:
+            os.close(r)
+            out = json.dumps({"result": do_hist_op(req["do"])})
+            with os.fdopen(w, "w") as f:
+                f.write(out)
+        finally:
+            os._exit(0)
+    os.close(w)
+    with os.fdopen(r) as f:
+        data = f.read()
+    os.waitpid(pid, 0)
+    if not data:
+        return {"result": {"raised": "ChildDied", "msg": ""}}
+    return json.loads(data)
+
+
 def op_x_std_api(req):
     """C20 case B: make_std_api(version) on this host applied to a file of that version."""
     x = xd()
